@@ -357,14 +357,21 @@ async fn run_ops(c: &[u64]) -> Option<Vec<u64>> {
                 w.handle.cancel_request(RequestId::from(a(1)? as usize)).await;
             }
             2 => {
-                width = 3;
-                let (p, broken) = (a(1)? as usize, a(2)?);
-                if p >= NPEERS {
+                width = 4;
+                let (p, broken, cap) = (a(1)? as usize, a(2)?, a(3)?);
+                if p >= NPEERS || cap > 4096 {
                     return None;
                 }
                 if !w.connected[p] {
                     w.connected[p] = true;
-                    w.proto.inject_connection_established(w.peers[p]);
+                    if cap == 0 {
+                        w.proto.inject_connection_established(w.peers[p]);
+                    } else {
+                        // a command channel with room for `cap` open-substream commands: of the
+                        // requests queued behind the dial the first `cap` get a substream, the
+                        // others fail at once (ChannelClogged)
+                        w.proto.inject_connection_established_with_capacity(w.peers[p], cap as usize);
+                    }
                     if broken != 0 {
                         w.proto.break_connection(w.peers[p]);
                     }
@@ -582,12 +589,13 @@ fn gen_guided(rng: &mut Rng, thorough: bool) -> Vec<u64> {
                 vec![0, p as u64, if rng.chance(85) { 1 } else { 0 }, len, tag]
             }
         } else if roll < 32 {
+            let cap = if dialing[p] >= 2 && rng.chance(50) { rng.range(1, dialing[p] - 1) } else { rng.pick(&[0u64, 0, 0, 1, 2]) };
             if !connected[p] {
                 connected[p] = true;
-                opens += dialing[p];
+                opens += if cap == 0 { dialing[p] } else { dialing[p].min(cap) };
                 dialing[p] = 0;
             }
-            vec![2, p as u64, if rng.chance(5) { 1 } else { 0 }]
+            vec![2, p as u64, if rng.chance(5) { 1 } else { 0 }, cap]
         } else if roll < 50 && opens > 0 {
             opens -= 1;
             out_chans.push(nchans);
@@ -670,7 +678,7 @@ fn gen_case(rng: &mut Rng, thorough: bool) -> Vec<u64> {
                 vec![0, p, if style == 1 || rng.chance(60) { 1 } else { 0 }, len, tag]
             }
             (_, 20..=24) => vec![1, if sent == 0 { 0 } else { rng.below(sent + 2) }],
-            (_, 25..=34) => vec![2, p, if rng.chance(10) { 1 } else { 0 }],
+            (_, 25..=34) => vec![2, p, if rng.chance(10) { 1 } else { 0 }, rng.pick(&[0u64, 0, 0, 1, 1, 2, 3])],
             (_, 35..=39) => vec![3, p],
             (_, 40..=43) => vec![4, p],
             (_, 44..=55) => vec![5, k, gate],
